@@ -674,10 +674,21 @@ def repaired(node):
     return n
 
 
+_FROZEN = [False]
+
+
 def run_case(case, probe=True):
     """Execute the case on the real textX."""
     use_repo()
     tmp = tempfile.mkdtemp(prefix="verif-c14-")
+    if not _FROZEN[0]:
+        # everything that exists before the first case (the case list of the whole run in a forked
+        # worker) is of no interest to the collector passes / the census below
+        _FROZEN[0] = True
+        import textx  # noqa: F401
+
+        gc.collect()
+        gc.freeze()
     gc.collect()
     try:
         r = Runner(case, tmp)
